@@ -10,6 +10,7 @@ import TonVerif.Proofs.Typed
 import TonVerif.Proofs.OrdCell
 import TonVerif.Proofs.SrcArith
 import TonVerif.Generated.Capacity
+import TonVerif.Proofs.SrcTyped
 
 namespace TonVerif.Properties.C07
 open TonVerif TonVerif.Model TonVerif.Spec.Tlb TonVerif.Proofs.Builder TonVerif.Proofs.Slice
@@ -210,5 +211,109 @@ example : Generated.bitsOverflow 1000 23 = false ∧ Generated.bitsOverflow 1000
     Generated.refsFull 4 = true ∧ Generated.cellRefsOverflow 2 3 = true ∧ Generated.bitsUnderflow 3 4 = true := by decide
 
 end Src
+
+/-! ## Source-regenerated METHODS (`Generated/BuilderOps.lean`, `Generated/SliceOps.lean`: the whole `store_*` / `load_*` methods
+and the `TvmBitarray` methods `extend / append / frombytes / check_overflow / check_underflow / __delitem__` they call,
+re-translated from the source on every run; see `C06.c06_src_store`, `c06_src_load` for the ties to the hand model) -/
+section SrcMethods
+open TonVerif.Proofs.SrcBuilder TonVerif.Proofs.SrcSlice TonVerif.Proofs.SrcTyped
+
+/-- `c07_invariant` for the regenerated methods: every regenerated builder operation (the typed stores, `store_cell`,
+`store_slice`; `MkOk`: see `C06`) maps a builder within capacity to a builder within capacity — whether it returns or raises after a partial
+write; hence so does every finite history of them. -/
+theorem c07_src_invariant :
+    ∀ (mk : Bits → List R → Option (Py.CellV R)), MkOk mk →
+    (∀ (op : Op R) (f : Builder R → Builder R × Option Unit), srcOp? mk op = some f →
+        ∀ b, Proofs.Builder.Inv b → Proofs.Builder.Inv (f b).1) ∧
+    (∀ (fs : List (Builder R → Builder R × Option Unit)), (∀ f ∈ fs, ∃ op : Op R, srcOp? mk op = some f) →
+        Proofs.Builder.Inv (fs.foldl (fun b f => (f b).1) (Builder.empty : Builder R))) := by
+  intro mk hmk
+  have step : ∀ (op : Op R) (f : Builder R → Builder R × Option Unit), srcOp? mk op = some f →
+      ∀ b, Proofs.Builder.Inv b → Proofs.Builder.Inv (f b).1 := by
+    intro op f hf b hb
+    rw [srcOp_eq mk hmk op f hf b]
+    exact safe_run op b hb
+  refine ⟨step, ?_⟩
+  intro fs
+  suffices h : ∀ (b : Builder R), Proofs.Builder.Inv b → (∀ f ∈ fs, ∃ op : Op R, srcOp? mk op = some f) →
+      Proofs.Builder.Inv (fs.foldl (fun b f => (f b).1) b) from h _ inv_empty
+  induction fs with
+  | nil => intro b hb _; exact hb
+  | cons f rest ih =>
+    intro b hb hall
+    obtain ⟨op, hop⟩ := hall f (List.mem_cons_self)
+    exact ih _ (step op f hop b hb) (fun g hg => hall g (List.mem_cons_of_mem _ hg))
+
+/-- `c07_refuse_iff` for the regenerated methods: on a within-capacity builder a regenerated typed store raises EXACTLY when the
+value is out of range for its width or its encoding does not fit the remaining bits / references. -/
+theorem c07_src_refuse_iff (mk : Bits → List R → Option (Py.CellV R)) (hmk : MkOk mk) (tv : TVal R)
+    (b : Builder R) (hb : Proofs.Builder.Inv b) : (srcStore mk tv b).2 = none ↔ ¬ Fits tv b := by
+  rw [srcStore_eq mk hmk tv b, ← c07_refuse_iff tv b hb, ofFlag_none]
+
+/-- the same for the regenerated composite stores: `store_cell(c)` / `store_slice(s)` raise exactly when the cell's bits / refs —
+for a slice its REMAINING refs `refs[ref_offset:]` — do not fit; when they return they append exactly those. -/
+theorem c07_src_refuse_iff_composite (c : Py.CellV R) (s : Py.SliceSt R) (hs : s.ref_offset ≤ s.refs.length)
+    (b : Builder R) (hb : Proofs.Builder.Inv b) :
+    ((Generated.BuilderOps.store_cell c b).2 = none ↔
+        ¬ (b.bits.length + c.bits.length ≤ 1023 ∧ b.refs.length + c.refs.length ≤ 4)) ∧
+    ((Generated.BuilderOps.store_slice s b).2 = none ↔
+        ¬ (b.bits.length + s.bits.length ≤ 1023 ∧ b.refs.length + (s.refs.length - s.ref_offset) ≤ 4)) ∧
+    ((Generated.BuilderOps.store_cell c b).2 = some () →
+        (Generated.BuilderOps.store_cell c b).1 = ⟨b.bits ++ c.bits, b.refs ++ c.refs⟩) ∧
+    ((Generated.BuilderOps.store_slice s b).2 = some () →
+        (Generated.BuilderOps.store_slice s b).1 = ⟨b.bits ++ s.bits, b.refs ++ s.refs.drop s.ref_offset⟩) := by
+  have hc := c07_refuse_iff_composite c.bits c.refs b hb
+  have hsl := c07_refuse_iff_composite s.bits (s.refs.drop s.ref_offset) b hb
+  have he := c07_composite_exact c.bits c.refs b hb
+  have hes := c07_composite_exact s.bits (s.refs.drop s.ref_offset) b hb
+  rw [List.length_drop] at hsl
+  rw [src_store_cell_eq, src_store_slice_eq s hs]
+  refine ⟨?_, ?_, ?_, ?_⟩
+  · rw [← hc.1, ofFlag_none]
+  · rw [← hsl.2, ofFlag_none]
+  · intro h; rw [ofFlag_some] at h; rw [ofFlag_fst]; exact he.1 h
+  · intro h; rw [ofFlag_some] at h; rw [ofFlag_fst]; exact hes.2 h
+
+/-- `c07_read_bounds` for the regenerated methods: the regenerated `load_bits / load_uint / load_int / load_bytes / skip_bits /
+load_bit / load_ref` (with `TvmBitarray.__delitem__` and its `check_underflow`), seen through `view`: asking for more than
+remains raises and leaves the slice unchanged; otherwise the result is exactly the next bits (the number they denote / the bytes
+they form) and the slice advances by exactly that many bits / one reference. -/
+theorem c07_src_read_bounds (n : Nat) (s : Py.SliceSt R) :
+    (viewR id (Generated.SliceOps.load_bits n s) = if s.bits.length < n then (view s, none)
+        else (⟨s.bits.drop n, (view s).refs⟩, some (s.bits.take n))) ∧
+    (viewR (fun (v : Nat) => (v : Int)) (Generated.SliceOps.load_uint n s) = if n = 0 ∨ s.bits.length < n then (view s, none)
+        else (⟨s.bits.drop n, (view s).refs⟩, some (bitsVal (s.bits.take n) : Int))) ∧
+    (viewR id (Generated.SliceOps.load_int n s) = if n = 0 ∨ s.bits.length < n then (view s, none)
+        else (⟨s.bits.drop n, (view s).refs⟩, some (bitsValS (s.bits.take n)))) ∧
+    (viewR id (Generated.SliceOps.load_bytes n s) = if s.bits.length < n * 8 then (view s, none)
+        else (⟨s.bits.drop (n * 8), (view s).refs⟩, some (bitsToBytes (s.bits.take (n * 8))))) ∧
+    (viewR id (Generated.SliceOps.skip_bits n s) = if s.bits.length < n then (view s, none)
+        else (⟨s.bits.drop n, (view s).refs⟩, some ())) ∧
+    (viewR id (Generated.SliceOps.load_bool s) = match s.bits with
+        | [] => (view s, none) | b :: rest => (⟨rest, (view s).refs⟩, some b)) ∧
+    (viewR id (Generated.SliceOps.load_ref s) = match s.refs.drop s.ref_offset with
+        | [] => (view s, none) | r :: rest => (⟨s.bits, rest⟩, some r)) ∧
+    -- and what `view` does not show: the bit reads leave the reference list and the offset alone
+    ((Generated.SliceOps.load_uint n s).1.refs = s.refs ∧ (Generated.SliceOps.load_uint n s).1.ref_offset = s.ref_offset) := by
+  have h := c07_read_bounds n s.bits (s.refs.drop s.ref_offset)
+  have hv : view s = ⟨s.bits, s.refs.drop s.ref_offset⟩ := rfl
+  rw [src_load_bits_eq, src_load_uint_eq, src_load_int_eq, src_load_bytes_eq, src_skip_bits_eq, src_load_bool_eq, src_load_ref_eq, hv]
+  refine ⟨h.1, h.2.1, h.2.2.1, h.2.2.2.1, h.2.2.2.2.1, ?_, ?_, (src_refs_untouched n s).1⟩
+  · have := h.2.2.2.2.2.1
+    rw [this]
+  · have := h.2.2.2.2.2.2
+    rw [this]
+
+/-- the regenerated methods at the capacity boundary: a builder at 1020 bits / 4 refs accepts `store_uint(5, 3)`, refuses
+`store_uint(5, 4)` (overflow), `store_uint(8, 3)` (range) and `store_ref` (the hypotheses of `c07_src_refuse_iff` are met, both
+outcomes occur); an over-read through the regenerated `load_uint` raises and leaves the slice as it was. -/
+example : let b : Builder Nat := ⟨List.replicate 1020 false, [1, 2, 3, 4]⟩
+    (Generated.BuilderOps.store_uint 5 3 b).2 = some () ∧ (Generated.BuilderOps.store_uint 5 4 b).2 = none ∧
+    (Generated.BuilderOps.store_uint 8 3 b).2 = none ∧ (Generated.BuilderOps.store_ref 9 b).2 = none ∧
+    (Generated.SliceOps.load_uint 5 (⟨[true, false], [7], 0⟩ : Py.SliceSt Nat)).2 = none ∧
+    (Generated.SliceOps.load_uint 5 (⟨[true, false], [7], 0⟩ : Py.SliceSt Nat)).1.bits = [true, false] := by
+  refine ⟨by decide +kernel, by decide +kernel, by decide +kernel, by decide +kernel, by decide, by decide⟩
+
+end SrcMethods
 
 end TonVerif.Properties.C07
